@@ -772,3 +772,30 @@ def c16(ctx):
     rnd = ctx.path("cases-b.ndjson")
     vlib.harness(["gen", "windows", ctx.seed, 5000 if q else 60000, rnd])
     vlib.exec_and_judge(ctx, "windows", rnd, "Trace_Windows", "B", sample_keys=keys)
+
+
+# ---------------------------------------------------------------------------
+@prop("C15", "editword", "Trace_EditWord")
+def c15(ctx):
+    q = ctx.quick()
+    ml = 3 if q else 4
+    ctx.rule = ("MC: chains of up to 3 edit_word calls (returned exclusion set fed back) over words of <=4 distinct symbols x all "
+                "exclusion subsets x all kind subsets x 2 table variants: exclusions stay inside the word, excluded symbols survive "
+                "(action property), every mechanism step is a property-layer step; A: words up to %d symbols x all exclusion subsets x "
+                "10 kind subsets x 2 tables x {ASCII, grapheme clusters} x 6 random streams x chains of 3 on the real edit_word with "
+                "the real InsertEdits/ReplaceEdits providers, and direct provider calls at index 0 / last / len / beyond; B: random "
+                "words, tables, chains. non-trivial = the word changed / provider call at a word boundary" % ml)
+    ctx.assumptions = ["the harness uses pairwise distinct symbols per word so that identity = value",
+                       "tables with two different lists for one context (hash-map overwrite) and results that do not segment back "
+                       "into table symbols are skipped and counted"]
+    cfg = ("CONSTANTS MaxLen = 4 MaxChain = 3\nSPECIFICATION Spec\nINVARIANTS ExclInside StepsAllowed\n"
+           "PROPERTY ExcludedSurvive\nCHECK_DEADLOCK FALSE\n")
+    vlib.mc(ctx, "MC_EditWord", cfg, name="MC_EditWord")
+    gcfg = "CONSTANTS MaxLen = %d\nINIT Init\nNEXT Next\nCHECK_DEADLOCK FALSE\n" % ml
+    cases, n = vlib.tlc_generate(ctx, "Gen_EditWord", gcfg, "cases-a.ndjson")
+    keys = ["kind", "ws", "excl", "kinds", "w2s", "excl2", "which", "idx", "some"]
+    vlib.exec_and_judge(ctx, "editword", cases, "Trace_EditWord", "A", sample_keys=keys)
+    ctx.exhaustive = True
+    rnd = ctx.path("cases-b.ndjson")
+    vlib.harness(["gen", "editword", ctx.seed, 1500 if q else 20000, rnd])
+    vlib.exec_and_judge(ctx, "editword", rnd, "Trace_EditWord", "B", sample_keys=keys)
